@@ -22,10 +22,7 @@ Definition part_ok (x : option ast) (e : option mexpr) : Prop :=
 
 Definition frame_ok (fr : frame) (ab : fabs) : Prop :=
   part_ok (fu fr) (fst ab) /\ part_ok (fi fr) (snd ab) /\
-  (forall i, snd ab = Some i -> is_isect i = true) /\
-  (fc fr = true -> snd ab = None) /\
-  (fst ab <> None -> snd ab = None -> fc fr = true) /\
-  (forall u i, fst ab = Some u -> snd ab = Some i -> starts_hash i = false).
+  (forall i, snd ab = Some i -> is_isect i = true).
 
 Definition frame_toks (ab : fabs) : list token :=
   (match fst ab with Some u => toks 0 u ++ [TColon] | None => [] end) ++
@@ -38,7 +35,7 @@ Fixpoint stack_ok (child : fkind) (stk : list frame) (sabs : list fabs) : Prop :
   match stk, sabs with
   | [], [] => True
   | fr :: stk', ab :: sabs' =>
-      frame_ok fr ab /\ (child = KHash -> fc fr = false) /\ stack_ok (fk fr) stk' sabs'
+      frame_ok fr ab /\ stack_ok (fk fr) stk' sabs'
   | _, _ => False
   end.
 
@@ -64,33 +61,29 @@ Proof. destruct o; intros H; try reflexivity; discriminate. Qed.
 Lemma close_frame_ok fr ab v : frame_ok fr ab -> close_frame fr = Some v ->
   exists e, closed_expr ab = Some e /\ psem e = Ok v /\ toks 0 e = frame_toks ab.
 Proof.
-  destruct ab as [eu ei]. intros (Hu & Hi & His & _ & _ & Hsh) Hc. cbn [fst snd] in *.
+  destruct ab as [eu ei]. intros (Hu & Hi & His) Hc. cbn [fst snd] in *.
   unfold close_frame in Hc. unfold closed_expr, frame_toks. cbn [fst snd].
   destruct ei as [i|]; cbn [part_ok] in Hi.
   - destruct Hi as (vi & Ei & Fi). rewrite Fi in Hc.
     destruct eu as [u|]; cbn [part_ok] in Hu.
     + destruct Hu as (vu & Eu & Fu). rewrite Fu in Hc. injection Hc as <-.
       exists (MOr u i). split; [reflexivity|]. split.
-      * cbn [psem]. rewrite Eu. cbn [bind]. rewrite (Hsh u i eq_refl eq_refl). rewrite Ei. reflexivity.
+      * cbn [psem]. rewrite Eu. cbn [bind]. rewrite Ei. reflexivity.
       * cbn [toks paren Nat.ltb Nat.leb]. now rewrite <- app_assoc.
     + rewrite Hu in Hc. injection Hc as <-. exists i. split; [reflexivity|]. split; [exact Ei|].
       cbn [app]. apply toks_isect. now apply His.
   - rewrite Hi in Hc. discriminate.
 Qed.
 
-Lemma starts_hash_and i o : is_isect i = true -> starts_hash (MAnd i o) = starts_hash i.
-Proof. destruct i; intros H; reflexivity. Qed.
-
 (* pushing an operand *)
 Lemma push_ok fr ab o v : frame_ok fr ab -> is_operand o = true -> psem o = Ok v ->
-  (fc fr = true -> starts_hash o = false) ->
   let i' := match snd ab with None => o | Some i => MAnd i o end in
   frame_ok (push_operand v fr) (fst ab, Some i') /\
   frame_toks (fst ab, Some i') = frame_toks ab ++ toks 2 o.
 Proof.
-  destruct ab as [eu ei]. intros (Hu & Hi & His & Hc1 & Hc2 & Hsh) Hop Ev Hh. cbn [fst snd] in *. cbv zeta.
+  destruct ab as [eu ei]. intros (Hu & Hi & His) Hop Ev. cbn [fst snd] in *. cbv zeta.
   split.
-  - unfold frame_ok, push_operand. cbn [fu fi fc fst snd]. repeat split.
+  - unfold frame_ok, push_operand. cbn [fu fi fst snd]. repeat split.
     + exact Hu.
     + destruct ei as [i|]; cbn [part_ok] in *.
       * destruct Hi as (vi & Ei & ->). exists (AAnd vi v). split; [|reflexivity].
@@ -98,11 +91,6 @@ Proof.
       * rewrite Hi. exists v. auto.
     + intros i0 E. injection E as <-. destruct ei as [i|]; [reflexivity|].
       destruct o; try reflexivity; discriminate.
-    + discriminate.
-    + discriminate.
-    + intros u i0 Eu E. injection E as <-. destruct ei as [i|].
-      * rewrite starts_hash_and by (now apply His). exact (Hsh u i Eu eq_refl).
-      * apply Hh. apply Hc2; [now rewrite Eu|reflexivity].
   - unfold frame_toks. cbn [fst snd]. rewrite <- app_assoc. f_equal.
     destruct ei as [i|].
     + reflexivity.
@@ -122,30 +110,27 @@ Proof.
     exists e. split; [|exact Ep]. destruct sabs; cbn [stack_toks app]; now rewrite app_nil_r.
   - destruct t as [z sub|n| | | | |]; cbn [run] in Hrun.
     + (* literal *)
-      destruct (push_ok cur cab (MLit z sub) (ASurf z sub) Hcur eq_refl eq_refl (fun _ => eq_refl)) as [Hf Ht].
+      destruct (push_ok cur cab (MLit z sub) (ASurf z sub) Hcur eq_refl eq_refl) as [Hf Ht].
       cbv zeta in Hf, Ht.
       destruct (IH _ _ _ sabs a Hf Hstk Hrun) as (e & Et & Ep). exists e. split; [|exact Ep].
       rewrite Et, Ht. cbn [toks]. unfold push_operand. cbn [fk]. now rewrite <- !app_assoc.
     + (* #n *)
-      destruct (fc cur) eqn:Fc; [discriminate|].
-      destruct (push_ok cur cab (MNotCell n) (ACompl n) Hcur eq_refl eq_refl) as [Hf Ht];
-        [intros H; rewrite Fc in H; discriminate|].
+      destruct (push_ok cur cab (MNotCell n) (ACompl n) Hcur eq_refl eq_refl) as [Hf Ht].
       cbv zeta in Hf, Ht.
       destruct (IH _ _ _ sabs a Hf Hstk Hrun) as (e & Et & Ep). exists e. split; [|exact Ep].
       rewrite Et, Ht. cbn [toks]. unfold push_operand. cbn [fk]. now rewrite <- !app_assoc.
     + (* #( *)
-      destruct (fc cur) eqn:Fc; [discriminate|].
       assert (Hnew : frame_ok (new_frame KHash) (None, None)).
       { unfold frame_ok, new_frame. cbn. repeat split; auto; try discriminate; congruence. }
       assert (Hstk' : stack_ok (fk (new_frame KHash)) (cur :: stk) (cab :: sabs)).
-      { cbn [stack_ok fk new_frame]. split; [exact Hcur|split; [intros _; exact Fc|exact Hstk]]. }
+      { cbn [stack_ok fk new_frame]. split; [exact Hcur|exact Hstk]. }
       destruct (IH _ _ (None, None) _ a Hnew Hstk' Hrun) as (e & Et & Ep). exists e. split; [|exact Ep].
       rewrite Et. cbn [stack_toks fk new_frame opener frame_toks fst snd app]. now rewrite <- !app_assoc.
     + (* ( *)
       assert (Hnew : frame_ok (new_frame KParen) (None, None)).
       { unfold frame_ok, new_frame. cbn. repeat split; auto; try discriminate; congruence. }
       assert (Hstk' : stack_ok (fk (new_frame KParen)) (cur :: stk) (cab :: sabs)).
-      { cbn [stack_ok fk new_frame]. split; [exact Hcur|split; [discriminate|exact Hstk]]. }
+      { cbn [stack_ok fk new_frame]. split; [exact Hcur|exact Hstk]. }
       destruct (IH _ _ (None, None) _ a Hnew Hstk' Hrun) as (e & Et & Ep). exists e. split; [|exact Ep].
       rewrite Et. cbn [stack_toks fk new_frame opener frame_toks fst snd app]. now rewrite <- !app_assoc.
     + (* ) *)
@@ -153,9 +138,9 @@ Proof.
       * (* closes a parenthesis *)
         destruct (close_frame cur) as [v|] eqn:C; [|discriminate].
         destruct stk as [|p stk']; [discriminate|]. cbn [stack_ok] in Hstk.
-        destruct sabs as [|pab sabs']; [contradiction|]. destruct Hstk as (Hp & _ & Hrest).
+        destruct sabs as [|pab sabs']; [contradiction|]. destruct Hstk as (Hp & Hrest).
         destruct (close_frame_ok cur cab v Hcur C) as (e0 & _ & Ep0 & Et0).
-        destruct (push_ok p pab (MParen e0) v Hp eq_refl Ep0 (fun _ => eq_refl)) as [Hf Ht].
+        destruct (push_ok p pab (MParen e0) v Hp eq_refl Ep0) as [Hf Ht].
         cbv zeta in Hf, Ht.
         assert (Hrest' : stack_ok (fk (push_operand v p)) stk' sabs') by exact Hrest.
         destruct (IH _ _ _ sabs' a Hf Hrest' Hrun) as (e & Et & Ep). exists e. split; [|exact Ep].
@@ -164,12 +149,11 @@ Proof.
       * (* closes a #( *)
         destruct (close_frame cur) as [v|] eqn:C; [|discriminate].
         destruct stk as [|p stk']; [discriminate|]. cbn [stack_ok] in Hstk.
-        destruct sabs as [|pab sabs']; [contradiction|]. destruct Hstk as (Hp & Hfc & Hrest).
+        destruct sabs as [|pab sabs']; [contradiction|]. destruct Hstk as (Hp & Hrest).
         destruct (inverse v) as [v'|] eqn:Ei; [|discriminate].
         destruct (close_frame_ok cur cab v Hcur C) as (e0 & _ & Ep0 & Et0).
         assert (Ep1 : psem (MNot e0) = Ok v') by (cbn [psem]; rewrite Ep0; exact Ei).
         destruct (push_ok p pab (MNot e0) v' Hp eq_refl Ep1) as [Hf Ht].
-        { intros H. rewrite (Hfc eq_refl) in H. discriminate. }
         cbv zeta in Hf, Ht.
         assert (Hrest' : stack_ok (fk (push_operand v' p)) stk' sabs') by exact Hrest.
         destruct (IH _ _ _ sabs' a Hf Hrest' Hrun) as (e & Et & Ep). exists e. split; [|exact Ep].
@@ -178,10 +162,10 @@ Proof.
     + (* : *)
       destruct (close_frame cur) as [u|] eqn:C; [|discriminate].
       destruct (close_frame_ok cur cab u Hcur C) as (e0 & Ec & Ep0 & Et0).
-      assert (Hnew : frame_ok (mkFrame (fk cur) (Some u) None true) (Some e0, None)).
-      { unfold frame_ok. cbn [fu fi fc fst snd part_ok]. repeat split; auto; try discriminate.
+      assert (Hnew : frame_ok (mkFrame (fk cur) (Some u) None) (Some e0, None)).
+      { unfold frame_ok. cbn [fu fi fst snd part_ok]. repeat split; auto; try discriminate.
         exists u. auto. }
-      assert (Hstk' : stack_ok (fk (mkFrame (fk cur) (Some u) None true)) stk sabs) by exact Hstk.
+      assert (Hstk' : stack_ok (fk (mkFrame (fk cur) (Some u) None)) stk sabs) by exact Hstk.
       destruct (IH _ _ _ sabs a Hnew Hstk' Hrun) as (e & Et & Ep). exists e. split; [|exact Ep].
       rewrite Et. cbn [fk]. unfold frame_toks at 1. cbn [fst snd]. rewrite Et0.
       rewrite app_nil_r. now rewrite <- !app_assoc.
